@@ -124,6 +124,7 @@ class Hist(object):
                 ch = self.childish(p, b)
                 if ch is None: return None
                 if p.id in self.inserted_parents and ch.parent is p: L.add('remove-after-insert')
+                self.removal_hook('rem', p, ch, None)
                 return 'rem\t%s\t%s' % (I(p), I(ch)), w.removeChild(p, ch)
             nc = self.newchild(p, b)
             if nc is None: return None
@@ -133,6 +134,7 @@ class Hist(object):
             if doc_of(nc) is not doc_of(p): L.add('cross-document')
             if op in ('app', 'ins'): self.taint_check(p, nc, None if op == 'app' else (None if c % 4 == 0 else self.childish(p, c // 4)), None)
             if op == 'app':
+                self.removal_hook('ins', p, nc, None)
                 self.doc_frag_partial(p, nc, None)
                 r = w.appendChild(p, nc)
                 if not r.is_err(): self.inserted_parents.add(p.id)
@@ -140,6 +142,7 @@ class Hist(object):
             if op == 'ins':
                 sel = c % 4
                 ref = None if sel == 0 else self.childish(p, c // 4)
+                self.removal_hook('ins', p, nc, ref)
                 self.doc_frag_partial(p, nc, ref)
                 r = w.insertBefore(p, nc, ref)
                 if not r.is_err(): self.inserted_parents.add(p.id)
@@ -147,6 +150,7 @@ class Hist(object):
             if op == 'rep':
                 old = self.childish(p, c)
                 if old is None: return None
+                self.removal_hook('rep', p, nc, old)
                 self.doc_frag_partial(p, nc, old, replacing=old)
                 self.taint_check(p, nc, old, old)
                 if p.id in self.inserted_parents and old.parent is p: L.add('remove-after-insert')
@@ -166,6 +170,9 @@ class Hist(object):
                 cand = [x for x in e.attrs if x.local is not None]
                 if sel < 2 and cand: x = self.pick(cand, idx); return x.ns, x.local
                 return NSLOCALS[idx % len(NSLOCALS)]
+            if op == 'sat':
+                nm = attrname(b)
+                if w._find_attr(e, nm) and not e.readonly: self.removal_hook('attrval', e, None, None)
             if op == 'sat': nm = attrname(b); s = DATA[c % len(DATA)]; return 'sat\t%s\t%s\t%s' % (I(e), esc(nm), esc(s)), w.setAttribute(e, nm, s)
             if op == 'satns':
                 sel, idx = b % 4, b // 4
@@ -178,6 +185,7 @@ class Hist(object):
                 codes, prefix, local = dm.qname_errors(ns, q, True)
                 if not codes and not e.readonly:
                     f = w._find_attr_ns(e, ns, local)
+                    if f or w._l1_clash(e, ns, local, q): self.removal_hook('attrval', e, None, None)
                     self.excl_check('C13-setAttributeNS-prefixed-lookup', bool(f) and prefix is not None)
                     self.excl_check('C13-setAttributeNS-keeps-prefix', bool(f) and prefix is None and f[0].prefix is not None)
                 return 'satns\t%s\t%s\t%s\t%s' % (I(e), esc(ns), esc(q), esc(s)), w.setAttributeNS(e, ns, q, s)
@@ -220,6 +228,7 @@ class Hist(object):
                 return idx % (ln + 4)
             s = DATA[d % len(DATA)]
             if op == 'apd': return 'apd\t%s\t%s' % (I(n), esc(s)), w.appendData(n, s)
+            self.text_hook(op, n, off(b), min(cnt(c), max(0, ln - off(b))) if off(b) <= ln else 0)
             if op == 'insd': return 'insd\t%s\t%d\t%s' % (I(n), off(b), esc(s)), w.insertData(n, off(b), s)
             if op == 'deld': return 'deld\t%s\t%d\t%d' % (I(n), off(b), cnt(c)), w.deleteData(n, off(b), cnt(c))
             if op == 'repd': return 'repd\t%s\t%d\t%d\t%s' % (I(n), off(b), cnt(c), esc(s)), w.replaceData(n, off(b), cnt(c), s)
@@ -232,18 +241,21 @@ class Hist(object):
             if n is None: return None
             if op == 'getv': return 'getv\t%s' % I(n), w.getNodeValue(n)
             s = DATA[b % len(DATA)]
+            if n.t == AT and not n.readonly: self.removal_hook('attrval', n, None, None)
             return 'setv\t%s\t%s' % (I(n), esc(s)), w.setNodeValue(n, s)
         if op == 'split':
             n = self.of_type((TX, CD), a)
             if n is None: return None
             o = b % (len(n.value) + 2)
-            return 'split\t%s\t%d' % (I(n), o), w.splitText(n, o)
+            return 'split\t%s\t%d' % (I(n), o), self.split_hook(n, o, w.splitText(n, o))
         if op == 'norm':
             sel, idx = a % 4, a // 4
             n = self.of_type((EL, DOC, FR), idx) if sel < 3 else self.pick([x for x in self.live() if x.t not in (AT, ENT, NOT, DT)], idx)
             if n is None: return None
             self.excl_check('C13-normalize-empty-text', any(all(t.value == '' for t in run) for run in w.text_runs(n)))
-            return 'norm\t%s' % I(n), w.normalize(n)
+            self.removal_hook('norm', n, None, None)
+            r = w.normalize(n)
+            return 'norm\t%s' % I(n), self.norm_hook(n, r)
         if op == 'clone':
             n = self.pick([x for x in self.live() if x.t not in (DOC, DT, ENT, NOT)], a)
             if n is None: return None
@@ -266,6 +278,10 @@ class Hist(object):
 
     def concretise_ext(self, op, ab):
         return None
+    def removal_hook(self, kind, p, c, ref): pass
+    def text_hook(self, op, n, off, cnt): pass
+    def split_hook(self, n, off, res): return res
+    def norm_hook(self, n, res): return res
 
     def taint_check(self, p, nc, ref, replacing):
         """known finding C13-clone-firstchild-flag: such a clone must not become a non-first child"""
@@ -477,3 +493,173 @@ def run_case(case, ex, optable, views=False, hist_cls=None):
                      for i, s in enumerate(steps[:at + 1]) if s.line != 'nop')
     detail += '\n--- history up to the failing step\n%s\n--- dump by xerces after the step\n%s\n--- dump by the model after the step\n%s' % (hist, got_dump, mdump)
     return False, detail, h
+
+
+# ---------------------------------------------------------------------------------------------------------
+# C14: histories with live views
+# ---------------------------------------------------------------------------------------------------------
+VIEW_CORE_OPS = [('cit', 4), ('itn', 12), ('itp', 7), ('itd', 1), ('gebt', 3), ('gebtns', 2),
+                 ('crg', 4), ('rss', 6), ('rse', 6), ('rsb', 2), ('rsa', 2), ('reb', 2), ('rea', 2), ('rcol', 2), ('rsel', 3), ('rselc', 3),
+                 ('rcmp', 3), ('rcr', 1), ('rts', 3), ('rdet', 1)]
+WALKER_OPS = [('ctw', 3), ('twpa', 3), ('twfc', 4), ('twlc', 3), ('twps', 3), ('twns', 4), ('twpn', 4), ('twnn', 6), ('twsc', 3)]
+SHOWS = [dm.SHOW_ALL, dm.SHOW_ALL, 1, 4, 5, 0x80, dm.SHOW_ALL & ~4, dm.SHOW_ALL & ~1, 1 | 4 | 8 | 16]
+FILTERS = [None, None, (1, {'b': 2}), (1, {'a': 3}), (3, {'#text': 1}), (1, {'#text': 2, 'k': 3}), (1, {'p:b': 2, '#comment': 3}), (2, {'a': 1, 'r': 1, '#text': 1, 'p:b': 3}), (1, {'r': 3, 'a': 3})]
+
+class ViewHist(Hist):
+    def views(self, kind): return [v for v in self.w.views if v.kind == kind]
+    def node_in_doc(self, doc, v, types=None):
+        cand = [n for n in self.live() if dm.doc_of(n) is doc and n.t != AT and (types is None or n.t in types)]
+        return self.pick(cand, v)
+
+    # ---- known findings of the view machinery ------------------------------------------------------------
+    def virgin_iterators(self, doc):
+        return [v for v in self.views('I') if v.doc is doc and not v.detached and not v.stepped]
+    def removal_hook(self, kind, p, c, ref):
+        """known finding: removeChild anywhere in a document that has a NodeIterator which never returned a node"""
+        w = self.w
+        if kind == 'norm': self._norm_work = any(len(run) > 1 or run[0].value == '' for run in w.text_runs(p))
+        if 'C14-iterator-unstepped-removechild' not in self.excl: return
+        if kind == 'attrval':       # Attr.setValue removes the attribute's Text children through removeChild
+            if self.virgin_iterators(dm.doc_of(p)): raise Excluded('C14-iterator-unstepped-removechild')
+            return
+        if kind == 'rem':
+            if not w.virgin_ok(self, p, [c] if (c.parent is p and not p.readonly) else []): raise Excluded('C14-iterator-unstepped-removechild')
+            return
+        if kind == 'norm':
+            doc = dm.doc_of(p)
+            self._norm_work = any(len(run) > 1 or run[0].value == '' for run in w.text_runs(p))
+            if self.virgin_iterators(doc) and (any(len(run) > 1 or run[0].value == '' for run in w.text_runs(p))): raise Excluded('C14-iterator-unstepped-removechild')
+            return
+        codes = w._insert_codes(p, c, ref if kind == 'ins' else None, replacing=ref if kind == 'rep' else None)
+        if kind == 'rep' and ref.parent is not p: codes.add(dm.NOT_FOUND)
+        if codes and not (codes == {dm.HIERARCHY} and w._ws_text_under_document(p, c)): return
+        removed = []
+        if kind == 'rep': removed.append(ref)
+        if c.t == FR: removed.extend(c.children)
+        elif c.parent is not None: removed.append(c)
+        if any(self.virgin_iterators(dm.doc_of(x)) for x in removed): raise Excluded('C14-iterator-unstepped-removechild')
+    def text_hook(self, op, n, off, cnt):
+        """known finding: text inserted before a range *start* in the same node clamps the start offset instead of shifting it"""
+        if 'C14-range-start-clamped-on-text-insert' not in self.excl or n.readonly: return
+        if op not in ('insd', 'repd') or off > len(n.value): return
+        for r in self.views('R'):
+            if r.detached or r.sc is not n: continue
+            if (op == 'insd' and r.so > off) or (op == 'repd' and r.so > off + cnt): raise Excluded('C14-range-start-clamped-on-text-insert')
+    def split_hook(self, n, off, res):
+        if not res.is_err() and any((not r.detached) and ((r.sc is n and r.so > off) or (r.ec is n and r.eo > off)) for r in self.views('R')):
+            res.unspec = res.unspec or 'splitText with a range boundary behind the split offset (DOM2 Range gives no rule; DOM4 moves it to the new node)'
+        return res
+    def norm_hook(self, n, res):
+        if self._norm_work and any((not r.detached) and r.doc is dm.doc_of(n) for r in self.views('R')):
+            res.unspec = res.unspec or 'normalize() that merges Text while a range is alive in the document (no rule in DOM2 Range)'
+        return res
+
+    list_changed = False; _lprev = None; _norm_work = False
+    def emit(self, cr):
+        Hist.emit(self, cr)
+        cur = dict((v.id, v.state()) for v in self.views('L'))
+        if self._lprev:
+            for k, st in cur.items():
+                if k in self._lprev and self._lprev[k] != st: self.list_changed = True
+        self._lprev = cur
+
+    def concretise_ext(self, op, ab):
+        k, a, b, c, d = ab
+        w = self.w; I = lambda n: '-' if n is None else str(n.id); L = self.labels
+        if op in ('cit', 'ctw'):
+            doc = self.doc(a)
+            sel, idx = b % 4, b // 4
+            root = doc if sel == 0 else self.node_in_doc(doc, idx, (EL, FR, DOC) if sel < 3 else None)
+            if root is None: return None
+            show = SHOWS[c % len(SHOWS)]; fs = FILTERS[(c // 16) % len(FILTERS)]; expand = (d % 2) == 1
+            flt = dm.NameFilter(*fs) if fs else None
+            v = (dm.NodeIter if op == 'cit' else dm.Walker)(w, doc, root, show, flt, expand)
+            return '%s\t%s\t%s\t%d\t%s\t%d' % (op, I(doc), I(root), show, flt.spec() if flt else '-', 1 if expand else 0), Res.ok(('v', v.id))
+        if op in ('itn', 'itp', 'itd'):
+            v = self.pick(self.views('I'), a)
+            if v is None: return None
+            if op == 'itn': return 'itn\t%d' % v.id, v.nextNode()
+            if op == 'itp': return 'itp\t%d' % v.id, v.previousNode()
+            return 'itd\t%d' % v.id, v.detach()
+        if op in ('gebt', 'gebtns'):
+            sel, idx = a % 4, a // 4
+            n = self.pick(w.docs, idx) if sel == 0 else self.of_type((EL,), idx)
+            if n is None: return None
+            # known finding: the list pool keys getElementsByTagName(X) and getElementsByTagNameNS(null, X) of one root alike
+            if op == 'gebt': nm0 = TAGQ[b % len(TAGQ)]; clash = any(l.root is n and l.ns_aware and l.ns is None and l.name == nm0 for l in self.views('L'))
+            else: ns0, ln0 = TAGQNS[b % len(TAGQNS)]; clash = ns0 is None and any(l.root is n and not l.ns_aware and l.name == ln0 for l in self.views('L'))
+            self.excl_check('C14-deepnodelist-pool-collision', clash)
+            if op == 'gebt':
+                nm = TAGQ[b % len(TAGQ)]; v = dm.TagList(w, n, False, None, nm)
+                return 'gebt\t%s\t%s' % (I(n), esc(nm)), Res.ok(('v', v.id))
+            ns, ln = TAGQNS[b % len(TAGQNS)]; v = dm.TagList(w, n, True, ns, ln)
+            return 'gebtns\t%s\t%s\t%s' % (I(n), esc(ns), esc(ln)), Res.ok(('v', v.id))
+        if op == 'crg':
+            doc = self.doc(a); v = dm.Range(w, doc)
+            return 'crg\t%s' % I(doc), Res.ok(('v', v.id))
+        if op in ('rss', 'rse', 'rsb', 'rsa', 'reb', 'rea', 'rcol', 'rsel', 'rselc', 'rcmp', 'rcr', 'rts', 'rdet'):
+            r = self.pick(self.views('R'), a)
+            if r is None: return None
+            if op in ('rss', 'rse'):
+                sel, idx = b % 4, b // 4
+                n = self.node_in_doc(r.doc, idx, (TX, CD, CM, EL) if sel < 2 else None)
+                if n is None: return None
+                off = c % (dm.clen(n) + 2)
+                return '%s\t%d\t%s\t%d' % (op, r.id, I(n), off), r.setPoint('s' if op == 'rss' else 'e', n, off)
+            if op in ('rsb', 'rsa', 'reb', 'rea', 'rsel', 'rselc'):
+                n = self.node_in_doc(r.doc, b)
+                if n is None: return None
+                if op == 'rsel':
+                    # known finding: selectNode on character data / PI selects the node's *contents*
+                    self.excl_check('C14-range-selectNode-chardata', n.t in (TX, CD, CM, PI) and not r.detached and n.parent is not None and not r._bad_type(n))
+                    return 'rsel\t%d\t%s' % (r.id, I(n)), r.selectNode(n)
+                if op == 'rselc': return 'rselc\t%d\t%s' % (r.id, I(n)), r.selectNodeContents(n)
+                return '%s\t%d\t%s' % (op, r.id, I(n)), r.setRel('s' if op[1] == 's' else 'e', op[2] == 'a', n)
+            if op == 'rcol': return 'rcol\t%d\t%d' % (r.id, b % 2), r.collapse(b % 2 == 1)
+            if op == 'rcmp':
+                o = self.pick([x for x in self.views('R') if x.doc is r.doc], b)
+                return 'rcmp\t%d\t%d\t%d' % (r.id, c % 4, o.id), r.compareBoundaryPoints(c % 4, o)
+            if op == 'rcr': return 'rcr\t%d' % r.id, r.cloneRange()
+            if op == 'rts':
+                # known finding: toString() also returns the data of comments and processing instructions in the range
+                self.excl_check('C14-range-toString-comment-pi', (not r.detached) and r.touches_types((CM, PI)))
+                return 'rts\t%d' % r.id, r.toString()
+            if op == 'rdet': return 'rdet\t%d' % r.id, r.detach()
+        if op.startswith('tw'):
+            v = self.pick(self.views('W'), a)
+            if v is None: return None
+            m = op[2:]
+            if m == 'sc':
+                n = self.node_in_doc(v.doc, b)
+                if n is None: return None
+                return 'twsc\t%d\t%s' % (v.id, I(n)), v.setCurrentNode(n)
+            f = {'pa': v.parentNode, 'fc': v.firstChild, 'lc': v.lastChild, 'ps': v.previousSibling, 'ns': v.nextSibling, 'pn': v.previousNode, 'nn': v.nextNode}[m]
+            return '%s\t%d' % (op, v.id), f()
+        return None
+
+    def view_prelude(self, kind):
+        """a few views created up front so that the mutations of the history happen while they are alive"""
+        w = self.w
+        if kind == 0: return
+        for d in (w.docs if kind == 3 else [w.docs[0]]):
+            root = next((c for c in d.children if c.t == EL), d)
+            it = dm.NodeIter(w, d, root, dm.SHOW_ALL, None, True)
+            self.emit(('cit\t%d\t%d\t%d\t-\t1' % (d.id, root.id, dm.SHOW_ALL), Res.ok(('v', it.id))))
+            self.emit(('itn\t%d' % it.id, it.nextNode()))
+            if kind >= 2: self.emit(('itn\t%d' % it.id, it.nextNode()))
+            l = dm.TagList(w, d, False, None, '*')
+            self.emit(('gebt\t%d\t*' % d.id, Res.ok(('v', l.id))))
+            r = dm.Range(w, d)
+            self.emit(('crg\t%d' % d.id, Res.ok(('v', r.id))))
+            tx = [n for n in w.nodes if not n.dead and n.t == TX and dm.doc_of(n) is d and dm.root_of(n) is d]
+            if tx:
+                t = tx[0]; o = len(t.value) // 2
+                self.emit(('rss\t%d\t%d\t%d' % (r.id, t.id, o), r.setPoint('s', t, o)))
+                t2 = tx[-1]
+                self.emit(('rse\t%d\t%d\t%d' % (r.id, t2.id, len(t2.value)), r.setPoint('e', t2, len(t2.value))))
+            elif root is not d:
+                self.emit(('rselc\t%d\t%d' % (r.id, root.id), r.selectNodeContents(root)))
+
+def _virgin_ok(w, hist, p, removed):
+    return not any(hist.virgin_iterators(dm.doc_of(x)) for x in removed)
+dm.World.virgin_ok = _virgin_ok
